@@ -84,6 +84,10 @@ pub mod sign;
 
 pub(crate) mod crypto;
 
+#[cfg(feature = "_verif")]
+#[allow(missing_docs)]
+pub mod verif;
+
 /// Extension of the bitcoin::io module
 pub mod io;
 
